@@ -274,6 +274,7 @@ class Gen:
             m.pop("_app", None)
         for m in files.get("extra.yml", [{}])[0].get("modules", []):
             m.pop("_app", None)
+        self.dirs = sorted({(path.rsplit("/", 1)[0] if "/" in path else ".") for path in files})
         args = self.args(cnames, [b["name"] for b in builders], [a["name"] for a in apps], mod_names)
         return {"files": files, "args": args}
 
@@ -369,6 +370,8 @@ class Gen:
         if self.chance("p_partition"):
             n = rng.randint(1, 4)
             a["partition"] = f"count:{rng.randint(1, n)}/{n}"
+        if self.chance("p_local"):
+            a["local"] = rng.choice(self.dirs)
         return a
 
 
